@@ -9,7 +9,7 @@ use in_toto::verifylib::in_toto_verify;
 use serde_json::json;
 use std::sync::Mutex;
 
-static CWD_LOCK: Mutex<()> = Mutex::new(());
+pub static CWD_LOCK: Mutex<()> = Mutex::new(());
 
 fn inspection(name: &str, run: &[&str], mats: Vec<ArtifactRule>, prods: Vec<ArtifactRule>) -> Inspection {
     Inspection::new(name).run(cmd(run)).expected_materials(mats).expected_products(prods)
